@@ -270,6 +270,38 @@ func ruleA3TABLE(p *Program, r *Reporter) {
 				}
 			}
 			ok := idx == declared
+			if !ok && declared < 0 && !isExportedEntry(fn) && !getCallIndex(p).usedAsVal[fn] {
+				// a private helper that is not in the table: accepted when every caller hands it
+				// (a reflect view of) its own reviewed in-place argument, or a value it just made
+				sites := getCallIndex(p).sites[fn]
+				forwarded := len(sites) > 0
+				for _, st := range sites {
+					ci, isCall := st.instr.(ssa.CallInstruction)
+					if !isCall || idx >= len(ci.Common().Args) || pkgOf(st.caller) != "updates" {
+						forwarded = false
+						break
+					}
+					src := map[*ssa.Parameter]bool{}
+					reflectSrcParams(ci.Common().Args[idx], map[ssa.Value]bool{}, 0, src)
+					callerDeclared := inPlaceArgOf(st.caller)
+					for q := range src {
+						qi := -1
+						for i, cp := range st.caller.Params {
+							if cp == q {
+								qi = i
+							}
+						}
+						if qi != callerDeclared {
+							forwarded = false
+						}
+					}
+				}
+				if forwarded {
+					r.Ob(id, funcName(fn), "in-place parameter "+prm.Name(), mutated[prm], true, true,
+						"private helper: every caller passes its own reviewed in-place argument (or a value it created) in this position")
+					continue
+				}
+			}
 			r.Ob(id, funcName(fn), "in-place parameter "+prm.Name(), mutated[prm], ok, true,
 				ifs(ok, "the only parameter written through reflect is the reviewed in-place argument #"+fmt.Sprint(declared),
 					fmt.Sprintf("parameter %s (#%d) is written in place through reflect, but the reviewed in-place argument of %s is #%d: a value the caller still owns (e.g. the update it is about to store, or the original model) is modified", prm.Name(), idx, fn.Name(), declared)))
@@ -687,7 +719,13 @@ func ruleX5(p *Program, r *Reporter) {
 					continue
 				}
 				for j := range mp[sc] {
-					if j >= len(c.Call.Args) {
+					if j >= len(c.Call.Args) || j >= len(sc.Params) {
+						continue
+					}
+					// the rule is about sets of row identifiers (index entries), not about any map
+					if mt, isMap := sc.Params[j].Type().Underlying().(*types.Map); !isMap {
+						continue
+					} else if st, isStruct := mt.Elem().Underlying().(*types.Struct); !isStruct || st.NumFields() != 0 {
 						continue
 					}
 					arg := c.Call.Args[j]
